@@ -1,4 +1,5 @@
 import MetadorModel.Proofs.ChainFaults
+import MetadorModel.Proofs.ChainUBlock
 /-!
 # C04 — Only coherent, untampered file sets open as a record
 
@@ -228,6 +229,12 @@ theorem ub_damage_rejected (fs : List (Option (File P M))) (h : none ∈ fs) :
         simp [mapM_cons, ih hr hne']
   rw [this]
   intro h; cases h
+
+/-- the user-block text accepted by the (canonical) parser is exactly a rendered well-formed
+block: any damage to the JSON text that is not itself a canonical block is refused -/
+theorem ub_parse_iff (t : List Char) (u : UBlock.UBT) :
+    UBlock.parseUBT t = .ok u ↔ t = UBlock.render u ∧ u.wf = true :=
+  UBlock.parseUBT_ok_iff t u
 
 /-! ## Non-vacuity: a concrete record with three containers, and each fault on it -/
 
